@@ -38,7 +38,9 @@ def node_source(i: Any, nd: Dict[str, Any]) -> str:
     deco = {"gen": "", "agen": "", "cm": "@contextlib.contextmanager\n", "acm": "@contextlib.asynccontextmanager\n"}[st_]
     body = (f"    try:\n        yield {ident}\n    except BaseException as e:\n        LOG('saw', {ident}, type(e).__name__)\n"
             + ("        pass\n" if nd.get("swallow") else "        raise\n")
-            + f"    finally:\n        LOG('close', {ident})\n")
+            + "    finally:\n"
+            + (f"        await asyncio.sleep({nd['tsleep']})\n" if is_async and nd.get("tsleep") else "")      # a teardown that takes a while (flush, commit)
+            + f"        LOG('close', {ident})\n")
     if nd.get("fail") == "after":
         body += f"        raise RuntimeError('dep{i} failed in teardown')\n"
     return deco + head + pre + body
